@@ -31,7 +31,7 @@ for pid in ALL:
 na = [dict(property_id=p, reason=NOT_APPLICABLE.get(p, "check not built yet in this session (work in progress); no claim is made")) for p in ALL if p not in CHECKS]
 man = dict(
     version=1,
-    setup_cmd="cd lean && lake build",
+    setup_cmd="/venv/bin/python harness/setup.py",
     hooks=dict(guard="DESHAW_PYFLYBY_VERIF", enable="no source hooks: the harness instruments from outside (monkey-patching, fault injection); checks set DESHAW_PYFLYBY_VERIF=1 for uniformity",
                baseline_off_cmd="cd /repo && /venv/bin/python -m pytest -ra -q -p no:cacheprovider --timeout=900 --continue-on-collection-errors",
                source_commits=[], add_only=True),
